@@ -28,7 +28,7 @@ type WHistory struct {
 
 func init() { commands["whist"] = cmdWHist }
 
-func runWHistory(h WHistory, scratch string, seed int64) ([]wworld.Event, error) {
+func runWHistory(h WHistory, scratch string, seed int64) ([]wworld.Event, []map[string]any, error) {
 	dir := filepath.Join(scratch, fmt.Sprintf("wh%d", h.ID))
 	os.RemoveAll(dir)
 	ww := wworld.New(h.ID, dir, seed+int64(h.ID))
@@ -39,19 +39,19 @@ func runWHistory(h WHistory, scratch string, seed int64) ([]wworld.Event, error)
 	defer ww.Close()
 	for _, m := range h.Mints {
 		if err := ww.AddMint(m.Name, m.Fee, m.Policy); err != nil {
-			return nil, err
+			return nil, nil, err
 		}
 	}
 	for _, w := range h.Wallets {
 		if err := ww.AddWallet(w.Name, w.Default); err != nil {
-			return nil, err
+			return nil, nil, err
 		}
 	}
 	ww.EmitInit()
 	for _, op := range h.Ops {
 		ww.Exec(op)
 	}
-	return ww.Events, nil
+	return ww.Events, ww.DleqLog, nil
 }
 
 func cmdWHist(args []string) int {
@@ -61,6 +61,7 @@ func cmdWHist(args []string) int {
 	scratch := fs.String("scratch", "/dev/shm/verif-whist", "scratch dir")
 	seed := fs.Int64("seed", 1, "seed")
 	workers := fs.Int("workers", 8, "parallel histories")
+	dleq := fs.String("dleq", "", "optional: ndjson log of the NUT-12 facts of tokens handed out and proofs stored")
 	fs.Parse(args)
 	data, err := os.ReadFile(*in)
 	if err != nil {
@@ -76,6 +77,7 @@ func cmdWHist(args []string) int {
 	defer os.RemoveAll(*scratch)
 	os.Remove(*out)
 	results := make([][]wworld.Event, len(hs))
+	dleqs := make([][]map[string]any, len(hs))
 	errs := make([]error, len(hs))
 	var wg sync.WaitGroup
 	sem := make(chan struct{}, *workers)
@@ -85,7 +87,7 @@ func cmdWHist(args []string) int {
 		go func(i int) {
 			defer wg.Done()
 			defer func() { <-sem }()
-			results[i], errs[i] = runWHistory(hs[i], *scratch, *seed)
+			results[i], dleqs[i], errs[i] = runWHistory(hs[i], *scratch, *seed)
 		}(i)
 	}
 	wg.Wait()
@@ -100,6 +102,20 @@ func cmdWHist(args []string) int {
 			return 2
 		}
 		n += len(results[i])
+	}
+	if *dleq != "" {
+		f, err := os.Create(*dleq)
+		if err != nil {
+			fmt.Fprintln(os.Stderr, err)
+			return 2
+		}
+		enc := json.NewEncoder(f)
+		for i := range hs {
+			for _, l := range dleqs[i] {
+				enc.Encode(l)
+			}
+		}
+		f.Close()
 	}
 	fmt.Printf("histories=%d events=%d\n", len(hs), n)
 	return 0
